@@ -116,7 +116,10 @@ def run(tw, tier, seed, only=None):
            [({"A": 1, "E": 1}, {"B": 1, "E": 1})], [({"A": 1}, {"B": 1}), ({"A": 1}, {"B": 1})],               # catalyst; repeated reaction
            [({}, {"A": 1}), ({"A": 12}, {}), ({"A": 10, "Fe": 2}, {"Cl2": 11})],                                   # source / sink / multi-digit
            [({"A": 2, "B": 1}, {"C": 3}), ({"C": 1}, {"A": 1, "D": 2}), ({"D": 1, "B": 1}, {"E": 1})],
-           [({"A": 2}, {"B": 3}), ({"A": 2}, {"B": 2}), ({"A": 1}, {"B": 2}), ({"A": 2}, {"B": 3})]]
+           [({"A": 2}, {"B": 3}), ({"A": 2}, {"B": 2}), ({"A": 1}, {"B": 2}), ({"A": 2}, {"B": 3})],
+           # species named by line notations (non-word characters after the first letter) with coefficients above one
+           [({"C=C": 2}, {"C1CCC1": 1}), ({"CC(=O)O": 2, "C#N": 3}, {"O": 1, "C=C": 1})],
+           [({"CC(=O)O": 1, "CO": 1}, {"CC(=O)OC": 1, "O": 1}), ({"C#N": 2}, {"N#CC#N": 1, "[H][H]": 1}), ({"C=C": 10}, {"C(C)C": 12})]]
     nets = fam + nets
     for _ in range(20 if tier == "quick" else 400):
         nets.append(gen.random_network(rng, 8, 10 if tier != "quick" else 5, 3))
